@@ -123,7 +123,7 @@ func checkC16(c *Ctx) {
 		r := c.CaseRng("sets-tag", t)
 		cases = append(cases, setCase{c.CaseID("sets-tag", t), []tlvOp{{byte(t), randBytes(r, 1+r.Intn(300))}, {byte(r.Intn(256)), randBytes(r, r.Intn(4))}}})
 	}
-	for i := 0; i < c.Pick(400, 6000); i++ {
+	for i := 0; i < c.Pick(400, 60000); i++ {
 		r := c.CaseRng("sets-seq", i)
 		k := 1 + r.Intn(8)
 		var ops []tlvOp
@@ -267,7 +267,7 @@ func checkC16(c *Ctx) {
 		b  []byte
 	}
 	var pcs []parseCase
-	for i := 0; i < c.Pick(1500, 30000); i++ {
+	for i := 0; i < c.Pick(1500, 300000); i++ {
 		r := c.CaseRng("parse", i)
 		pcs = append(pcs, parseCase{c.CaseID("parse", i), genTlvInput(r)})
 	}
